@@ -224,3 +224,54 @@ pub fn sweep(space: &Space, mode: Mode, max_len: usize) -> Tally {
     });
     Tally::merge_all(tallies)
 }
+
+/// Frames at the edges of the integer widths an undo count or a slot number might be stored in:
+/// `(?:(?=a)(a){k groups}(?:b|(?=c)c)x|a+)(?!y)` on a^k b writes 2k slots between two pushes, then
+/// abandons the whole alternative (two pops) and matches `a+`. By construction the overall match is
+/// 0..k and every group is unset - the oracle needs no engine and no reference matcher.
+pub fn width_edges(ks: &[usize]) -> Tally {
+    let ks = ks.to_vec();
+    let tallies = par::run_workers(1, |_w, claimer| {
+        engine::quiet_panics();
+        let mut t = Tally::new();
+        for (i, &k) in ks.iter().enumerate() {
+            if !claimer.is_mine(i) {
+                continue;
+            }
+            let pattern = format!("(?:(?=a){}(?:b|(?=c)c)x|a+)(?!y)", "(a)".repeat(k));
+            let text = format!("{}b", "a".repeat(k));
+            let short = format!("(?:(?=a)(a){{x{}}}(?:b|(?=c)c)x|a+)(?!y)", k);
+            let re = match engine::compile(&pattern) {
+                Ok(r) => r,
+                Err(_) => {
+                    t.count("width_edge_patterns_rejected", 1);
+                    continue;
+                }
+            };
+            t.programs += 1;
+            t.evaluations += 1;
+            let mut viol = |t: &mut Tally, what: String| {
+                t.violation(
+                    k,
+                    jobj! {"kind" => "width-edges", "pattern" => short.as_str(), "text" => format!("a x{} b", k), "pos" => 0usize, "observed" => what.as_str(),
+                    "summary" => format!("/{}/ on a^{}b: {}", short, k, what)},
+                );
+            };
+            match engine::captures_at(&re, &text, 0) {
+                Out::Match(g) => {
+                    t.nontrivial += 1;
+                    if g.first().copied().flatten() != Some((0, k)) {
+                        viol(&mut t, format!("overall match {:?}, expected (0, {})", g.first(), k));
+                    } else if g.len() != k + 1 {
+                        viol(&mut t, format!("{} groups reported, expected {}", g.len(), k + 1));
+                    } else if let Some(j) = (1..g.len()).find(|&j| g[j].is_some()) {
+                        viol(&mut t, format!("group {} = {:?} after its alternative was abandoned (expected unset)", j, g[j]));
+                    }
+                }
+                other => viol(&mut t, format!("{} (expected a match 0..{})", other.short(), k)),
+            }
+        }
+        t
+    });
+    Tally::merge_all(tallies)
+}
